@@ -12,6 +12,7 @@ except ModuleNotFoundError:
                      " Note that Lens class is faster with numexpr")
 
 from holopy.core import detector_points, update_metadata
+from holopy.core.prior import Prior
 from holopy.scattering.theory.scatteringtheory import ScatteringTheory
 
 
@@ -44,7 +45,9 @@ class Lens(ScatteringTheory):
         self.quad_npts_phi = quad_npts_phi
 
         self.use_numexpr = use_numexpr
-        self._setup_quadrature()
+        if not isinstance(lens_angle, Prior):
+            # (a prior stands for the value a model puts in its place)
+            self._setup_quadrature()
 
     def can_handle(self, scatterer):
         return self.theory.can_handle(scatterer)
@@ -68,6 +71,8 @@ class Lens(ScatteringTheory):
 
     def raw_fields(self, positions, scatterer, medium_wavevec, medium_index,
                     illum_polarization):
+        # the quadrature of the lens angle and orders the theory has now
+        self._setup_quadrature()
         pol_angle = np.arctan2(illum_polarization.values[1],
                                illum_polarization.values[0])
         integral_l, integral_r = self._compute_integral(positions, scatterer,
